@@ -46,10 +46,15 @@ func checkC16(c *Ctx) {
 		want []string
 	}
 	var sites []site
+	entParam = "ent"
+	if len(fn.Params) >= 2 {
+		entParam = PN(fn.Params[1])
+	}
+	defer func() { entParam = "ent" }()
 	bd := func(v ssa.Value) string {
 		var d string
 		Bound(func() { d = Desc(v) })
-		return d
+		return normEnt(d)
 	}
 	for _, cl := range CallsDeep(fn) {
 		call, ok := cl.(*ssa.Call)
@@ -126,7 +131,7 @@ func checkC16(c *Ctx) {
 						continue // after the join loop
 					}
 					a = normCfg(a)
-					a = strings.ReplaceAll(a, fn.Params[0].Name()+".jsonEncoder.", "")
+					a = strings.ReplaceAll(a, PN(fn.Params[0])+".jsonEncoder.", "")
 					got = append(got, a)
 				}
 				sets = append(sets, uniqSorted(got))
@@ -464,9 +469,9 @@ func c16Grammar(c *Ctx, fn *ssa.Function) {
 				switch {
 				case strings.HasSuffix(d, ".ConsoleSeparator"):
 					return "sep"
-				case d == fn.Params[1].Name()+".Message":
+				case d == PN(fn.Params[1])+".Message":
 					return "msg"
-				case d == fn.Params[1].Name()+".Stack":
+				case d == PN(fn.Params[1])+".Stack":
 					return "stack"
 				case strings.HasSuffix(d, ".LineEnding"):
 					return "eol"
@@ -546,7 +551,7 @@ func c16Grammar(c *Ctx, fn *ssa.Function) {
 					return "extra=T"
 				}
 				return "extra=F"
-			case strings.HasSuffix(st.Desc(subject), fn.Params[0].Name()+".jsonEncoder.buf") || strings.HasSuffix(st.Desc(subject), fn.Params[0].Name()+".buf"):
+			case strings.HasSuffix(st.Desc(subject), PN(fn.Params[0])+".jsonEncoder.buf") || strings.HasSuffix(st.Desc(subject), PN(fn.Params[0])+".buf"):
 				if nonEmpty {
 					return "shared=T"
 				}
@@ -599,7 +604,7 @@ func c16Constructor(c *Ctx, rule string) {
 		if !c.Anchor(rule, "zapcore."+fname, fn != nil && len(fn.Params) >= 1) {
 			continue
 		}
-		cfgN := fn.Params[0].Name()
+		cfgN := PN(fn.Params[0])
 		allowed := map[string]bool{"LineEnding": true, "NewReflectedEncoder": true, "ConsoleSeparator": true}
 		var badStores, badLE []string
 		nRet := 0
